@@ -107,12 +107,15 @@ CLAIMED = {
         "whether it happened; cd / pushd_fn / popd_fn / dirs_fn preserve $PWD == CWD; a non-zero return code implies $PWD, $OLDPWD, CWD and "
         "DIRSTACK are unchanged; a zero code with an attempted chdir implies the process really is there; cd - / cd -N / pushd dir / pushd / "
         "pushd -n / popd / popd +-N / dirs +-N select the documented entries under both $PUSHD_MINUS settings; the stack holds at most "
-        "$DIRSTACK_SIZE entries after every pushd and truncation drops from the bottom. All paths, all stacks, all arguments. The same "
+        "$DIRSTACK_SIZE entries after every pushd and truncation drops from the bottom (pushd / popd with and without the listing they print). with_pushd - `pushd d` "
+        "then `popd` around a body (with-contract, callers checked against the pushd_fn / popd_fn CONTRACTS): with room on the stack, afterwards $PWD, the process directory and the stack are exactly as before, "
+        "or - when the way back fails - exactly the pushed state, never a mixture; once the process is back in the old directory the stack is as before too; the way back is attempted exactly once on "
+        "every exit of the body, exceptional ones included; a failed pushd changes nothing and raises. All paths, all stacks, all arguments. The same "
         "contracts are evaluated on a real directory tree (stacks of <= 3 dirs, injected chdir failures) as cross-check.",
    note="KNOWN FINDING (recorded, class excluded from the rotation clause only): pushd +-N moves entry N to the top instead of rotating. "
         "Two genuine defects repaired (fix: 917b945, 38594ac). Unverified: symlink semantics of realpath / cd -P, $CDPATH globbing, Windows UNC "
-        "mapping, ArgParserAlias argument decoding, the default (tilde-abbreviated) dirs listing, with_pushd and the path-literal cd() context "
-        "manager, BaseShell._fix_cwd. Assumes stack entries are absolute paths. Trusted: pyvc engine + models + z3/cvc5.",
+        "mapping, ArgParserAlias argument decoding, the default (tilde-abbreviated) dirs listing, the path-literal cd() context "
+        "manager, BaseShell._fix_cwd; with_pushd's body is ASSUMED to leave directory and stack as it found them. Assumes stack entries are absolute paths. Trusted: pyvc engine + models + z3/cvc5.",
    design="§3 C16"),
  "C11": dict(
    category="proof",
